@@ -135,9 +135,33 @@ type samProc struct {
 	log  string
 }
 
+// cappedLog returns a pipe end to hand to a process as stdout/stderr; what arrives is copied to path up to max
+// bytes and read on (discarded) after that, so that a process logging in a busy loop neither blocks nor fills the disk.
+func cappedLog(path string, max int64) (*os.File, error) {
+	lf, err := os.Create(path)
+	if err != nil {
+		return nil, err
+	}
+	r, w, err := os.Pipe()
+	if err != nil {
+		lf.Close()
+		return nil, err
+	}
+	go func() {
+		defer lf.Close()
+		defer r.Close()
+		io.CopyN(lf, r, max)
+		n, _ := io.Copy(io.Discard, r)
+		if n > 0 {
+			fmt.Fprintf(lf, "\n[c17: log capped, %d further bytes dropped]\n", n)
+		}
+	}()
+	return w, nil
+}
+
 func startSam(bin, dir, name, cfg string, env []string) (*samProc, error) {
 	logp := filepath.Join(dir, name+".log")
-	lf, err := os.Create(logp)
+	lf, err := cappedLog(logp, 4<<20)
 	if err != nil {
 		return nil, err
 	}
@@ -387,7 +411,6 @@ func e2eMain(args []string) error {
 		return err
 	}
 	defer w.Close()
-	_ = io.Discard
 	return cli.ReadNDJSON(*in, func(line []byte) error {
 		var r e2eIn
 		if err := json.Unmarshal(line, &r); err != nil {
